@@ -1,5 +1,7 @@
 import TracklibVerif.Model.Split
 import TracklibVerif.Model.SplitVal
+import TracklibVerif.Model.SplitTrack
+import TracklibVerif.Model.SplitNum
 import TracklibVerif.Drv.Util
 /-! Driver handler for C11. Commands:
   split <markers as 0/1 string>   → `<pieces> <ids>`: pieces as lists of observation indices, `;`-separated
@@ -29,9 +31,44 @@ import TracklibVerif.Drv.Util
                                   → `segseq` on the operator-call model (`segTrackG` at `Val`); the track is given by
                                     its coordinates, timestamps and feature table, the columns of the built-in names
                                     `t`, `timestamp`, `idx` being computed here (`FTrack.ofObs`)
-Values and thresholds are exact: a rational `p/q`, `inf`, `-inf`, and `nan` for a value. -/
+  splitname <limit> <source> <x y z columns> <timestamps> <feature table> <points>
+                                  → `<pieces> <ids>` of `split(track, source, limit)`, the marker being READ FROM THE
+                                    TABLE BY NAME by the model (`splitTrackU` at `Val`, `== 1` = `Val.isOne`), or `err:af`
+  segseqsplitv <x y z columns> <timestamps> <feature table> (<mode> <afs> <out> <thresholds>)+
+                                  → `segseqv`, then `split(track, <out of the last call>)` on the resulting track:
+                                    `<table> <pieces>`
+  markerp / segsplitp             → the same two on numbers with their Python type (`markersG` at `PNum`): `I<n>` a Python
+                                    int, `N<n>` a numpy.int64, `D<p/q>` a numpy.float64, anything else a Python float;
+                                    an integer against a float with a numpy scalar in the pair is converted to a double
+Values and thresholds are exact: a rational `p/q`, `inf`, `-inf`, and `nan` for a value.
+Feature NAMES are arbitrary strings: every character other than an ASCII letter, digit, `_`, `#` crosses the boundary
+as `%` followed by the four hexadecimal digits of its code point (`encName` / `decName`). -/
 namespace TV.Drv.C11
 open TV.Split TV.Drv
+
+/-! ### feature names on the line protocol -/
+def hexVal? (c : Char) : Option Nat :=
+  if c.isDigit then some (c.toNat - 48) else if 'a' ≤ c ∧ c ≤ 'f' then some (c.toNat - 87) else none
+
+def decChars : List Char → Option (List Char)
+  | [] => some []
+  | '%' :: a :: b :: c :: d :: rest =>
+    match hexVal? a, hexVal? b, hexVal? c, hexVal? d, decChars rest with
+    | some a, some b, some c, some d, some r => some (Char.ofNat (((a * 16 + b) * 16 + c) * 16 + d) :: r)
+    | _, _, _, _, _ => none
+  | '%' :: _ => none
+  | ch :: rest => (decChars rest).map (ch :: ·)
+
+def decName (s : String) : Option String := (decChars s.toList).map String.ofList
+
+def hexDigit (n : Nat) : Char := if n < 10 then Char.ofNat (48 + n) else Char.ofNat (87 + n)
+
+def encName (s : String) : String :=
+  String.join (s.toList.map (fun c =>
+    if c.isAlphanum || c == '_' || c == '#' then c.toString
+    else
+      let n := c.toNat
+      String.ofList ['%', hexDigit (n / 4096 % 16), hexDigit (n / 256 % 16), hexDigit (n / 16 % 16), hexDigit (n % 16)]))
 
 def showPieces (pieces : List (List Nat)) : String :=
   joinWith ";" (pieces.map (fun p => if p.isEmpty then "e" else ",".intercalate (p.map toString)))
@@ -71,11 +108,13 @@ def arg? {γ : Type} (f : String → Option γ) (s : String) : Option (Arg γ) :
 def table? (s : String) : Option (List (String × Col Ext)) :=
   (splitTok s ';').mapM (fun e =>
     match e.splitOn "=" with
-    | [nm, vs] => ((splitTok vs ',').mapM val?).map (fun c => (nm, c))
+    | [nm, vs] => match decName nm with
+      | some nm => ((splitTok vs ',').mapM val?).map (fun c => (nm, c))
+      | none => none
     | _ => none)
 
 def showTable (t : List (String × Col Ext)) : String :=
-  joinWith ";" (t.map (fun p => p.1 ++ "=" ++ joinWith "," (p.2.map showVal)))
+  joinWith ";" (t.map (fun p => encName p.1 ++ "=" ++ joinWith "," (p.2.map showVal)))
 
 def points? (s : String) : Option (List (Float × Float × Float)) :=
   (splitTok s ';').mapM (fun p =>
@@ -90,17 +129,27 @@ def pieceLength (p : List (Nat × Float × Float × Float)) : Float := trackLeng
 def segSeq (t : FTrack Ext) : List String → Option (Except String (FTrack Ext))
   | [] => some (.ok t)
   | mode :: afs :: out :: ths :: rest =>
-    match arg? some afs, arg? ext? ths with
-    | some a, some th =>
+    match arg? decName afs, decName out, arg? ext? ths with
+    | some a, some out, some th =>
       if mode == "and" || mode == "or" then
         match segTrack Ext.fmax (mode == "and") t a out th with
         | .ok t' => segSeq t' rest
         | .error e => some (.error e)
       else none
-    | _, _ => none
+    | _, _, _ => none
   | _ => none
 
 /-! ### values that may be timestamps -/
+/-- a number with its Python type: `I<n>`, `N<n>`, `D<value>`, `<value>` -/
+def pnum? (s : String) : Option PNum :=
+  if s.startsWith "I" then ((s.drop 1).toString.toInt?).map (fun n => ⟨.pyInt, .fin (n : Rat)⟩)
+  else if s.startsWith "N" then ((s.drop 1).toString.toInt?).map (fun n => ⟨.npInt, .fin (n : Rat)⟩)
+  else if s.startsWith "D" then (ext? (s.drop 1).toString).map (fun v => ⟨.npFloat, v⟩)
+  else (ext? s).map (fun v => ⟨.pyFloat, v⟩)
+def pnumList? (s : String) : Option (List PNum) := (splitTok s ',').mapM pnum?
+def rowsp? (rows : String) : Option (List (List (Option PNum))) :=
+  (splitTok rows ';').mapM (fun r => (splitTok r ',').mapM (fun s => if s == "nan" then some none else (pnum? s).map some))
+
 def stamp? (s : String) : Option TV.ObsTime.Stamp :=
   match (splitTok s '.').mapM String.toNat? with
   | some [y, mo, d, h, mi, sc, ms] => some ⟨⟨y, mo, d, h, mi, sc⟩, ms⟩
@@ -118,10 +167,12 @@ def rowsv? (rows : String) : Option (List (List (Option Val))) :=
 def tablev? (s : String) : Option (List (String × Col Val)) :=
   (splitTok s ';').mapM (fun e =>
     match e.splitOn "=" with
-    | [nm, vs] => ((splitTok vs ',').mapM cellv?).map (fun c => (nm, c))
+    | [nm, vs] => match decName nm with
+      | some nm => ((splitTok vs ',').mapM cellv?).map (fun c => (nm, c))
+      | none => none
     | _ => none)
 def showTableV (t : List (String × Col Val)) : String :=
-  joinWith ";" (t.map (fun p => p.1 ++ "=" ++ joinWith "," (p.2.map showCellV)))
+  joinWith ";" (t.map (fun p => encName p.1 ++ "=" ++ joinWith "," (p.2.map showCellV)))
 
 /-- exact value of a finite double -/
 def floatExt (f : Float) : Option Val :=
@@ -148,14 +199,20 @@ def stampList? (s : String) : Option (List TV.ObsTime.Stamp) :=
 def segSeqV (t : FTrack Val) : List String → Option (Except String (FTrack Val))
   | [] => some (.ok t)
   | mode :: afs :: out :: ths :: rest =>
-    match arg? some afs, arg? valv? ths with
-    | some a, some th =>
+    match arg? decName afs, decName out, arg? valv? ths with
+    | some a, some out, some th =>
       if mode == "and" || mode == "or" then
         match segTrackG Val.isnan Val.le? Val.fmax (mode == "and") t a out th with
         | .ok t' => segSeqV t' rest
         | .error e => some (.error e)
       else none
-    | _, _ => none
+    | _, _, _ => none
+  | _ => none
+
+/-- the output name of the last call of a sequence -/
+def lastOut : List String → Option String
+  | [_, _, out, _] => decName out
+  | _ :: _ :: _ :: _ :: rest => lastOut rest
   | _ => none
 
 /-- numbers the observations through the whole collection and splits every track -/
@@ -218,15 +275,36 @@ def handle (cmd : String) (args : List String) : String :=
       | some (.error e) => "err:" ++ e
       | none => "bad-request"
     | _, _, _ => "bad-request"
+  | "segseqsplitv", xyz :: stamps :: feats :: calls =>
+    match tablev? xyz, stampList? stamps, tablev? feats, lastOut calls with
+    | some v, some st, some f, some out =>
+      match segSeqV (FTrack.ofObs absTimeF v st f) calls with
+      | some (.ok t) =>
+        match splitTrack Val.isOne t out with
+        | .ok pieces => s!"{showTableV t.feats} {showPieces pieces}"
+        | .error e => "err:" ++ e
+      | some (.error e) => "err:" ++ e
+      | none => "bad-request"
+    | _, _, _, _ => "bad-request"
+  | "splitname", [lim, source, xyz, stamps, feats, pts] =>
+    match float? lim, decName source, tablev? xyz, stampList? stamps, tablev? feats, points? pts with
+    | some limit, some src, some v, some st, some f, some ps =>
+      if st.length != ps.length then "bad-request" else
+      let len := fun (p : List Nat) => trackLength Float.sqrt (p.filterMap (fun i => ps[i]?))
+      match splitTrackU Val.isOne (fun p => limitShort limit (len p)) (fun p => limitKeepTail limit (len p))
+          (FTrack.ofObs absTimeF v st f) src with
+      | .ok r => s!"{showPieces (r.map Prod.snd)} {showIds (r.map Prod.fst)}"
+      | .error e => "err:" ++ e
+    | _, _, _, _, _, _ => "bad-request"
   | "segtrack", [mode, afs, out, ths, size, virt, feats] =>
-    match arg? some afs, arg? ext? ths, size.toNat?, table? virt, table? feats with
-    | some a, some th, some n, some v, some f =>
+    match arg? decName afs, decName out, arg? ext? ths, size.toNat?, table? virt, table? feats with
+    | some a, some out, some th, some n, some v, some f =>
       if mode == "and" || mode == "or" then
         match segTrack Ext.fmax (mode == "and") { size := n, virt := v, feats := f } a out th with
         | .ok t => showTable t.feats
         | .error e => "err:" ++ e
       else "bad-request"
-    | _, _, _, _, _ => "bad-request"
+    | _, _, _, _, _, _ => "bad-request"
   | c, [mode, ths, rows] =>
     if c == "markerv" || c == "segsplitv" then
       match valvList? ths, rowsv? rows with
@@ -234,6 +312,16 @@ def handle (cmd : String) (args : List String) : String :=
         if mode == "and" || mode == "or" then
           match markersG Val.isnan Val.le? Val.fmax (mode == "and") th rs with
           | .ok bs => if c == "markerv" then showMarks bs else s!"{showMarks bs} {showPieces (splitIdx0 bs)}"
+          | .error e => "err:" ++ e
+        else "bad-request"
+      | _, _ => "bad-request"
+    else
+    if c == "markerp" || c == "segsplitp" then
+      match pnumList? ths, rowsp? rows with
+      | some th, some rs =>
+        if mode == "and" || mode == "or" then
+          match markersG PNum.isnan PNum.le? PNum.fmax (mode == "and") th rs with
+          | .ok bs => if c == "markerp" then showMarks bs else s!"{showMarks bs} {showPieces (splitIdx0 bs)}"
           | .error e => "err:" ++ e
         else "bad-request"
       | _, _ => "bad-request"
